@@ -9,7 +9,7 @@ import numpy as np
 
 from . import dsl
 from .extract import NLP, declare, quiet
-from .sx2smt import SXProgram, ConstPool, Z3Domain, RefZ3Domain, FloatDomain, PolyFloatDomain, HarnessError, Unsupported
+from .sx2smt import RockitRaised, SXProgram, ConstPool, Z3Domain, RefZ3Domain, FloatDomain, PolyFloatDomain, HarnessError, Unsupported
 
 NPTS = 3   # fingerprint points
 
@@ -76,6 +76,7 @@ class Named:
                 add(('Xr', xr))
                 if spec.nz:
                     add(('Zr', st.sample(st.z, grid='integrator_roots')[1]))
+                    add(('Zc', st.sample(st.z, grid='control')[1]))
 
     def exprs(self):
         return [it[-1] for it in self.items]
@@ -114,6 +115,8 @@ class Named:
                 tr.Xr = _cols(v, spec.nx)
             elif k == 'Zr':
                 tr.Zr = _cols(v, spec.nz)
+            elif k == 'Zc':
+                tr.Zc = _cols(v, spec.nz)
         if not spec.nu:
             tr.U = [[] for _ in range(N)]
         return tr
@@ -127,10 +130,22 @@ class Inst:
         self.spec, self.cfg, self.poly = spec, cfg, poly
         self.rng = random.Random(seed)
         t0 = time.time()
-        self.b = built or declare(spec, cfg, poly=poly)
-        self.nlp = NLP(self.b, solver=solver)
-        self.named = Named(self.b)
+        try:
+            self.b = built or declare(spec, cfg, poly=poly)
+            self.nlp = NLP(self.b, solver=solver)
+            self.named = Named(self.b)
+        except (HarnessError, Unsupported):
+            raise
+        except Exception as e:
+            import traceback
+            tb = traceback.extract_tb(e.__traceback__)
+            where = [f for f in tb if '/rockit/' in f.filename]
+            loc = ('%s:%s' % (where[-1].filename.split('/rockit/')[-1], where[-1].name)) if where else '?'
+            raise RockitRaised('%s|%s: %s' % (loc, type(e).__name__, str(e).strip().splitlines()[-1][:200]))
         self.t_rockit = time.time() - t0
+        if callable(extra_outputs):
+            with quiet():
+                extra_outputs = extra_outputs(self.b)
         self._trace(extra_outputs or [])
 
     def _trace(self, extra):
